@@ -620,7 +620,7 @@ pub fn run(ctx: &Ctx) {
     );
 
     // (1) NodeInfo proptest
-    let n1: u32 = ctx.tier.pick(6_000, 150_000);
+    let n1: u32 = ctx.tier.pick(30_000, 300_000);
     ctx.proptest("pt-nodeinfo", n1, nodeinfo_strategy, |d| {
         let v = check_nodeinfo(ctx, d);
         ctx.sample("nodeinfo", || serde_json::to_value(d).unwrap());
@@ -672,7 +672,7 @@ pub fn run(ctx: &Ctx) {
     ctx.subspace("claims: every address length 0..=16 x every prefix 0..=255", 17 * 256, true);
 
     // (2) handshake messages
-    let n2: u32 = ctx.tier.pick(4_000, 80_000);
+    let n2: u32 = ctx.tier.pick(12_000, 120_000);
     ctx.proptest("pt-init", n2, init_strategy, |d| {
         let v = check_init(ctx, d);
         ctx.sample("handshake-message", || serde_json::to_value(d).unwrap());
@@ -691,7 +691,7 @@ pub fn run(ctx: &Ctx) {
     ctx.subspace("proptest rotation message round trip / reference differential", n3 as u64, false);
 
     // (4) decoder totality: mutations of valid encodings
-    let n4: u64 = ctx.tier.pick(60, 1200);
+    let n4: u64 = ctx.tier.pick(200, 2000);
     ctx.par_range(n4, |_, i| {
         let mut runner = ctx.sampler("mutate", i as usize);
         // NodeInfo
@@ -750,7 +750,7 @@ pub fn run(ctx: &Ctx) {
     ctx.subspace("valid encodings x (every truncation + substitutions at every tag/length position)", n4, false);
 
     // (5) random byte strings up to 2 KiB
-    let n5: u32 = ctx.tier.pick(8_000, 200_000);
+    let n5: u32 = ctx.tier.pick(60_000, 600_000);
     ctx.proptest(
         "pt-random-bytes",
         n5,
